@@ -11,6 +11,7 @@ git -C "$WT" checkout -q -- . && git -C "$WT" clean -qfd
 git -C "$WT" apply "$P" || { echo "patch does not apply"; exit 2; }
 rm -rf "$H"; mkdir -p "$H" "$OUT"
 rsync -a --exclude target /verif/harness/ "$H/"
+for f in ${STUBS:-}; do git -C /verif show ${STUBREV:-9a69882}:harness/vcheck/src/$f > "$H/vcheck/src/$f"; done
 sed -i "s#/repo/#$WT/#g; s#\.\./vendor#/verif/vendor#g" "$H/Cargo.toml"
 sed -i "s#/verif/target#/tmp/mwt/target#" "$H/.cargo/config.toml"
 cp /verif/known_findings.json "$OUT/"
